@@ -89,7 +89,7 @@ class C13Events(Machine):
     assumptions = ["1e-9 relative slack on geometric bounds and weights",
                    "buggify violations are reported only when the minimised trace needs <=3 injected draws"]
     required_counters = ("probe.shadow_rejections", "fault.energy_raised", "probe.list_wrap",
-                         "fault.list_exhausted", "draws.injected", "probe.events_checked")
+                         "fault.list_exhausted", "draws.injected", "probe.events_checked", "probe.resized")
 
     def draw_config(self, rng):
         kind = rng.pick(["cylindrical", "cylindrical", "rectangular", "rectangular", "list"])
@@ -175,7 +175,11 @@ class C13Events(Machine):
             return rng.weighted([({"op": "list_throw", "n": rng.randint(1, 7)}, 3.0),
                                  ({"op": "count_assign", "value": rng.randint(0, 50)}, 1.0),
                                  ({"op": "count_read"}, 1.0)])
-        k = rng.weighted([("throw", 4.0), ("count_read", 1.0), ("count_assign", 0.7), ("energy_fault", 0.6)])
+        k = rng.weighted([("throw", 4.0), ("count_read", 1.0), ("count_assign", 0.7), ("energy_fault", 0.6),
+                          ("resize", 0.5)])
+        if k == "resize":
+            return {"op": "resize", "dr": rng.pick([100.0, 1000.0, 5000.0]), "dz": rng.pick([50.0, 1000.0, 2800.0]),
+                    "dx": rng.pick([200.0, 3000.0]), "dy": rng.pick([200.0, 10000.0])}
         if k == "throw":
             n = rng.pick([20, 50, 150])
             op = {"op": "throw", "n": n}
@@ -252,6 +256,18 @@ class C13Events(Machine):
         # the next throw works
         return ["energy_fault", self._throw_and_check(1, None)]
 
+    def _op_resize(self, op):
+        """The public dimension attributes are reassigned on the live generator."""
+        if self.cfg["kind"] == "list":
+            raise Skip("no dimensions")
+        names = ("dr", "dz") if self.cfg["kind"] == "cylindrical" else ("dx", "dy", "dz")
+        for nm in names:
+            setattr(self.gen, nm, op[nm])
+            self.cfg[nm] = op[nm]
+        self.count("probe.resized")
+        self.nontrivial = True
+        return ["resize", self._throw_and_check(5, None)]
+
     def _op_throw(self, op):
         return ["throw", self._throw_and_check(op["n"], op.get("inject"))]
 
@@ -276,6 +292,9 @@ class C13Events(Machine):
                 self.nontrivial = True
                 if not cfg["shadow"]:
                     raise Violation("C13:retry-without-shadow", "events were re-thrown with shadow off")
+            if len(self.energies) - e0 != len(made):
+                raise Violation("C13:energy-draws", "one create_event(): %d throws but the energy source was "
+                                "asked %d times" % (len(made), len(self.energies) - e0))
             roots = list(ev.roots)
             if len(roots) != 1:
                 raise Violation("C13:event-shape", "generated event has %d roots" % len(roots))
